@@ -2,7 +2,7 @@
    Model: Samp/PhaseSpace.v.  Masses in "a-order": a0 = m_mass[-1], tl = [a1;..;a_{n-1}] (a_i = m_mass[-i-1]),
    sampled ladder Ms = [M_1;..;M_{n-2}], full ladder Ms ++ [m0]; step i is M_{i+1} -> M_i + a_{i+1}.
    The uniform random numbers (ladder positions, cos theta, phi, accept/reject) are inputs: the RNG is an oracle. *)
-From Coq Require Import Reals List Lra.
+From Coq Require Import Reals List Lra Permutation.
 From Interval Require Import Tactic.
 From TFV Require Import Base.RBase Kin.Boost Kin.Boost_proofs Samp.PhaseSpace Samp.PhaseSpace_proofs.
 Import ListNotations.
@@ -73,6 +73,72 @@ Theorem C10_lips_flat : forall m0 a0 tl Ms, length Ms = length (mass_ranges m0 a
 Proof. exact lips_flat. Qed.
 Print Assumptions C10_lips_flat.
 
+(* ---- cal_max_weight (the stored bound replaced by a numerical maximum; scipy's optimiser is an ORACLE returning
+   r = w(x_opt)/w0).  Model of the code after the repair (hunt round): ws = relative weights (under the analytic bound
+   wt0) of the scanned proposals, new bound = wt0 * max(1,r) * max ws * 1.001.  Every ladder whose relative weight does not
+   exceed max(1,r) * max ws - every scanned ladder and the optimiser's own result in particular - keeps an acceptance
+   weight <= 1/1.001; the new bound is positive and at most 1.001 x the analytic one. *)
+Theorem C10_cal_max_bound : forall wt0 ws r w, 0 < wt0 -> 0 < rmaxl ws -> w <= rmax 1 r * rmaxl ws ->
+  reweight wt0 (cal_max_new wt0 ws r) w <= 1000 / 1001.
+Proof. exact cal_max_new_bound. Qed.
+Print Assumptions C10_cal_max_bound.
+
+Theorem C10_cal_max_scanned : forall wt0 ws r w, 0 < wt0 -> 0 < rmaxl ws -> In w ws ->
+  reweight wt0 (cal_max_new wt0 ws r) w <= 1000 / 1001.
+Proof. exact cal_max_new_scanned. Qed.
+Print Assumptions C10_cal_max_scanned.
+
+Theorem C10_cal_max_optimum : forall wt0 ws r, 0 < wt0 -> 0 < rmaxl ws ->
+  reweight wt0 (cal_max_new wt0 ws r) (r * rmaxl ws) <= 1000 / 1001.
+Proof. exact cal_max_new_optimum. Qed.
+Print Assumptions C10_cal_max_optimum.
+
+Theorem C10_cal_max_range : forall wt0 ws r, 0 < wt0 -> 0 < rmaxl ws -> Forall (fun w => w <= 1) ws -> r * rmaxl ws <= 1 ->
+  0 < cal_max_new wt0 ws r <= wt0 * (1001 / 1000).
+Proof. exact cal_max_new_range. Qed.
+Print Assumptions C10_cal_max_range.
+
+(* the full statement "after cal_max_weight no ladder has a weight above one" needs the optimiser to find the global
+   maximum (oracle); kept visible: *)
+Definition C10_cal_max_global_statement : Prop := forall wt0 ws r (all_weights : R -> Prop),
+  0 < wt0 -> 0 < rmaxl ws -> (forall w, all_weights w -> w <= rmax 1 r * rmaxl ws) ->
+  forall w, all_weights w -> reweight wt0 (cal_max_new wt0 ws r) w <= 1.
+Theorem C10_cal_max_global_given_oracle : C10_cal_max_global_statement.
+Proof. intros wt0 ws r P H0 Hw HP w Hin. pose proof (cal_max_new_bound wt0 ws r w H0 Hw (HP w Hin)). lra. Qed.
+Print Assumptions C10_cal_max_global_given_oracle.
+
+(* the code before the repair (one optimiser run from one random proposal): an optimiser that stops at its start
+   point leaves ladders with a weight above one *)
+Theorem C10_cal_max_old_refuted : exists wt0 r w, 0 < wt0 /\ 0 < r <= 1 /\ 0 <= w <= 1 /\ 1 < reweight wt0 (cal_max_old wt0 r) w.
+Proof. exact cal_max_old_refuted. Qed.
+Print Assumptions C10_cal_max_old_refuted.
+
+(* ---- set_decay on an existing generator gives the state of a fresh generator (after the repair); before, the masses
+   were appended and sum_mass kept *)
+Theorem C10_set_decay_fresh : forall st m0 mass, set_decay_new st m0 mass = init_state m0 mass.
+Proof. exact set_decay_new_fresh. Qed.
+Print Assumptions C10_set_decay_fresh.
+
+Theorem C10_set_decay_old_refuted : exists st m0 mass, set_decay_old st m0 mass <> init_state m0 mass.
+Proof. exact set_decay_old_refuted. Qed.
+Print Assumptions C10_set_decay_old_refuted.
+
+(* ---- ConfigLoader.generate_phsp_p / build_phsp_chain: a common inner node is generated at a fixed mass iff EVERY
+   decay chain has a constant ("one") particle of one and the same mass there; independent of the order of the chains.
+   Before the repair the first chain decided. *)
+Theorem C10_nest_node_spec : forall parts m,
+  nest_node parts = Some m <-> parts <> [] /\ Forall (fun p => p = (true, m)) parts.
+Proof. exact nest_node_spec. Qed.
+Print Assumptions C10_nest_node_spec.
+
+Theorem C10_nest_node_perm : forall parts parts', Permutation.Permutation parts parts' -> nest_node parts = nest_node parts'.
+Proof. exact nest_node_perm. Qed.
+Print Assumptions C10_nest_node_perm.
+
+Theorem C10_nest_node_old_refuted : exists parts parts', Permutation.Permutation parts parts' /\ nest_node_old parts <> nest_node_old parts'.
+Proof. exact nest_node_old_refuted. Qed.
+Print Assumptions C10_nest_node_old_refuted.
+
 (* ---- non-vacuity *)
 Example C10_example_two_body : add4 (two_body_p 1 (3/10) (2/10) (1/2) 1) (neg4 (two_body_recoil 1 (3/10) (2/10) (1/2) 1)) = V4 1 0 0 0.
 Proof. apply two_body_sum_at_rest; lra. Qed.
@@ -84,4 +150,13 @@ Proof.
   - repeat constructor; lra.
   - cbn. repeat split; lra.
   - unfold wt_max. cbn [wtmax_list rsum rprod]. unfold get_p, rmax. interval.
+Qed.
+(* cal_max_weight: scan weights 0.2, 0.5, optimiser reaches 1.2 x the best scanned: the ladder of relative weight 0.6 *)
+Example C10_example_cal_max : reweight 2 (cal_max_new 2 [2/10; 5/10] (12/10)) (12/10 * rmaxl [2/10; 5/10]) <= 1000 / 1001.
+Proof. apply cal_max_new_optimum; [lra | unfold rmaxl, rmax; interval]. Qed.
+Example C10_example_nest_node : nest_node [(true, 3); (false, 2)] = None /\ nest_node [(true, 3); (true, 3)] = Some 3.
+Proof.
+  split.
+  - reflexivity.
+  - apply nest_node_spec. split; [discriminate | repeat constructor].
 Qed.
